@@ -3,22 +3,31 @@ modeldrv — executable driver of the Lean models.  One operation per input line
 result per output line.  Imports model files only (no Mathlib), so it links as a native exe.
 -/
 import Driver.Pure
+import Driver.Topo
 
 open Driver
 
-partial def loop (h : IO.FS.Stream) (out : IO.FS.Stream) : IO Unit := do
+structure DState where
+  mgrs : List (Nat × SierraModel.Topology.Mgr) := []
+
+def step (st : DState) (toks : List String) : DState × String :=
+  match toks with
+  | "c24" :: rest => (st, Pure.c24 rest)
+  | "c25" :: rest => (st, Pure.c25 rest)
+  | "c23" :: rest => (st, Pure.c23 rest)
+  | "c13" :: rest => (st, Topo.c13 rest)
+  | "c14" :: rest => let (m, r) := Topo.c14 st.mgrs rest; ({ st with mgrs := m }, r)
+  | _ => (st, "bad-op")
+
+partial def loop (h : IO.FS.Stream) (out : IO.FS.Stream) (st : DState) : IO Unit := do
   let line ← h.getLine
   if line.isEmpty then return ()
   let toks := (line.trimAscii.toString.splitOn " ").filter (· ≠ "")
-  let r := match toks with
-    | "c24" :: rest => Pure.c24 rest
-    | "c25" :: rest => Pure.c25 rest
-    | "c23" :: rest => Pure.c23 rest
-    | _ => "bad-op"
+  let (st', r) := step st toks
   out.putStrLn r
-  loop h out
+  loop h out st'
 
 def main : IO Unit := do
   let stdin ← IO.getStdin
   let stdout ← IO.getStdout
-  loop stdin stdout
+  loop stdin stdout {}
